@@ -158,6 +158,30 @@ func lineStartDoc(r *rand.Rand) string {
 	return strings.Join(lines, "\n") + pickS(r, "\n", "\n", "")
 }
 
+// headingDoc: ATX headings whose text ends in (or is) a "{...}" group in all
+// escaping variants; pkg/md's heading-attribute extension makes an unescaped
+// trailing " {...}" an attribute, so the formatter has to keep text as text.
+func headingDoc(r *rand.Rand) string {
+	h := strings.Repeat("#", 1+r.Intn(6))
+	var ws []string
+	for n := r.Intn(3); n > 0; n-- {
+		ws = append(ws, pickS(r, "title", "a", "*b*", "`c`", "é", "[l](u)", "x{y}", "\\{z}"))
+	}
+	inner := pickS(r, "d", "#id", "#id .c", "a b", "`c`", "*e*", "\\}", "&#125;", "{", "1")
+	tail := pickS(r, "{"+inner+"}", "\\{"+inner+"}", "{"+inner+"\\}", "&#123;"+inner+"}", "{"+inner+"&#125;", "&#x7b;"+inner+"&#x7D;",
+		"{"+inner+"}{x}", "{"+inner+"} {x}", "\\{"+inner+"} {#i}", "{}", "{ }", "}", "{", "{"+inner, "{"+inner+"}.", "`{"+inner+"}`")
+	tail = strings.ReplaceAll(tail, "\\\\", "\\")
+	sep := pickS(r, " ", " ", "  ", "&#32;", "\\ ", "")
+	sep = strings.ReplaceAll(sep, "\\\\", "\\")
+	line := h + " " + strings.Join(ws, " ")
+	if len(ws) > 0 {
+		line += sep
+	}
+	line += tail + pickS(r, "", "", "", " #", " ##  ", "  ")
+	pre := pickS(r, "", "", "", "> ", "- ", "1. ", "para\n")
+	return pre + line + pickS(r, "\n", "\n", "", "\ntext\n")
+}
+
 var (
 	escapedLineStart = regexp.MustCompile(`(?m)^[ >]*(?:[-*] +|[0-9]+[.)] +)*(?:[0-9]{1,9}\\[.)]|\\[-+>#~=_*` + "`" + `<]|&#[0-9]+;|&NewLine;|    <)`)
 	leadingZeroOne   = regexp.MustCompile(`(?m)(?:^|[ \n>])0+1\\?[.)](?: |$)`)
@@ -167,7 +191,22 @@ func runTargeted(c *mon.Case) {
 	r := c.Rand
 	per := c.Env.Pick(60, 400)
 	for k := 0; k < per; k++ {
-		if r.Intn(2) == 0 {
+		if which := r.Intn(5); which == 4 {
+			doc := headingDoc(r)
+			var tc md.TraceCodec
+			md.Render(doc, &tc)
+			for _, op := range tc.Ops() {
+				if op.Type != md.OpHeading {
+					continue
+				}
+				if op.Info != "" {
+					c.Count("heading_with_attribute", 1)
+				} else if headingEndsInBraceGroup(op) {
+					c.Count("heading_text_ends_in_brace_group", 1)
+				}
+			}
+			judge(c, doc, pickWidth(r), "heading")
+		} else if which < 2 {
 			doc := titleDoc(r)
 			w := pickWidth(r)
 			// what the formatter has to choose between (as pkg/md parses it)
@@ -218,6 +257,29 @@ func runTargeted(c *mon.Case) {
 			judge(c, doc, w, "linestart")
 		}
 	}
+}
+
+var braceGroupAtEnd = regexp.MustCompile(`(?:^| )\{[^}]+\}$`)
+
+// headingEndsInBraceGroup: the heading has no attributes but its text content
+// ends in " {...}" (so the source must have escaped it somehow).
+func headingEndsInBraceGroup(op md.Op) bool {
+	if op.Info != "" || len(op.Content) == 0 {
+		return false
+	}
+	var sb strings.Builder
+	for _, in := range op.Content {
+		switch in.Type {
+		case md.OpText:
+			sb.WriteString(in.Text)
+		case md.OpCodeSpan:
+			sb.WriteString("`" + in.Text + "`")
+		default:
+			sb.WriteString("\x01")
+		}
+	}
+	last := op.Content[len(op.Content)-1]
+	return last.Type == md.OpText && braceGroupAtEnd.MatchString(sb.String())
 }
 
 var _ = mon.Q
